@@ -1069,6 +1069,26 @@ def gen_calls(h, report):
         thr = 'std::length_error' in region[a:]
     out.append('/-- `external_range_length` throws length_error for a range longer than size_type can hold when NDEBUG is defined (random access, forward) -/')
     out.append('def rangeLengthCheckedNdebug : Bool := %s\n' % ('true' if all(flags) and thr else 'false'))
+    # growing paths that rely on a CHECKED primitive (rather than on an explicit max_size guard) for the length_error of C12:
+    # which capacity computation and which allocation primitive each one calls
+    grow = {}
+    for fn, pick, lean in (('assign_with_copies', 0, 'assignWithCopies'), ('assign_with_range', 'forward', 'assignWithRange'), ('request_capacity', 0, 'requestCapacity')):
+        fs = list(h.find_functions(fn, scope_b))
+        if pick == 'forward':
+            fs = [f for f in fs if 'forward_iterator_tag' in norm(f['params'])]
+        if not fs:
+            raise Untranslatable('%s not found' % fn)
+        body = resolve_pp(fs[0]['body'])
+        calcs = re.findall(r'\b(checked|unchecked)_calculate_new_capacity\s*\(', body)
+        allocs = re.findall(r'\b(checked|unchecked)_allocate\s*\(', body)
+        if len(calcs) != 1 or len(allocs) != 1:
+            raise Untranslatable('%s: expected one capacity computation and one allocation, found %s / %s' % (fn, calcs, allocs))
+        grow[lean] = (fs[0]['line'], calcs[0], allocs[0])
+        out.append('/-- %s (hpp:%d) computes the new capacity with `%s_calculate_new_capacity` … -/' % (fn, fs[0]['line'], calcs[0]))
+        out.append('def %sCalcChecked : Bool := %s\n' % (lean, 'true' if calcs[0] == 'checked' else 'false'))
+        out.append('/-- … and allocates with `%s_allocate` -/' % allocs[0])
+        out.append('def %sAllocChecked : Bool := %s\n' % (lean, 'true' if allocs[0] == 'checked' else 'false'))
+    report['grow_calls'] = {k: dict(line=v[0], calc=v[1], alloc=v[2]) for k, v in grow.items()}
     out.append('end SvModel.Gen\n')
     report['calls'] = dict(ctors={k: dict(line=v[0], calls=v[1]) for k, v in rows.items()}, range_length_checked_ndebug=flags, thrower_present_ndebug=thr)
     return '\n'.join(out)
